@@ -55,7 +55,26 @@ func (f *fakeMem) Size() uint32 {
 func (f *fakeMem) Clear()             {}
 func (f *fakeMem) Dump(uint32) []byte { return nil }
 
+// mirroredRAM: a device built the way Go invites - the library's RAM embedded, Read/Write overridden
+// (an 8 KiB chip mirrored through a larger window). Everything else is the embedded RAM's.
+type mirroredRAM struct {
+	memory.RAM
+	base, mask uint32
+}
+
+func (m mirroredRAM) Read(a uint32) byte     { return m.RAM.Read(m.base + (a-m.base)&m.mask) }
+func (m mirroredRAM) Write(a uint32, v byte) { m.RAM.Write(m.base+(a-m.base)&m.mask, v) }
+
+// invertingROM: the library's ROM embedded by pointer, Read overridden (a bus with inverted data lines)
+type invertingROM struct {
+	*memory.ROM
+}
+
+func (m invertingROM) Read(a uint32) byte { return ^m.ROM.Read(a) }
+
 type c13mem struct {
+	wrap   int // 0 none, 1 mirroredRAM (mask in wmask), 2 invertingROM
+	wmask  uint32
 	fake   *fakeMem
 	data   []byte // real memory.RAM / memory.ROM backing store
 	offset uint32
@@ -69,6 +88,12 @@ func (m *c13mem) expect(a uint32) byte {
 			return v
 		}
 		return fakeVal(m.fake.id, a)
+	}
+	switch m.wrap {
+	case 1:
+		return m.data[(a-m.offset)&m.wmask]
+	case 2:
+		return ^m.data[a-m.offset]
 	}
 	return m.data[a-m.offset]
 }
@@ -342,6 +367,17 @@ func C13(r *vf.Run) {
 				m.offset = start
 				m.rom = true
 				m.mem = memory.NewROM(m.data, start)
+				switch g.Intn(4) {
+				case 0:
+					m.wrap = 2
+					m.mem = invertingROM{memory.NewROM(m.data, start)}
+					cells["attach:embedding-device"]++
+				case 1:
+					// a RAM embedded in a mirroring device (treated as read-only here: writes are mirrored too)
+					m.wrap, m.wmask = 1, []uint32{0xF, 0xFF, 0x1FFF}[g.Intn(3)]
+					m.mem = mirroredRAM{memory.NewRAM(m.data, start), start, m.wmask}
+					cells["attach:embedding-device"]++
+				}
 			default:
 				m.fake = &fakeMem{id: ci*100 + mi}
 				if g.Intn(3) == 0 {
